@@ -39,7 +39,7 @@ REACH = {t: ["versions_11", "all_256_message_types", "rssi_min", "rssi_max", "em
              "unicast", "multicast", "broadcast", "ignored_type", "join", "leave", "deny", "leave_of_known_device_same_nwk", "leave_of_known_device_other_nwk", "v14_layout",
              "pre_v14_layout", "versions_mixed_in_one_process", "own_address_changed_mid_run",
              "same_application_reconnected_to_another_version", "join_callbacks_back_to_back",
-             "unicast_during_network_info_reload"] for t in ("quick", "thorough")}
+             "unicast_during_network_info_reload", "fullstack_c13_judged"] for t in ("quick", "thorough")}
 SHARD_TIMEOUT = {"quick": 900, "thorough": 3600}
 ID_INCOMING = 0x45
 ID_TCJOIN = 0x24
@@ -83,7 +83,9 @@ def shards(tier, seed):
         [[13, 14, 13], [14, 4, 14], [8, 14], [14, 13], [4, 14, 8, 14], [12, 14, 12], [14, 14], [7, 13]]
     for h in hops:
         out.append({"versions": [h[0]], "reconnect": h[1:], "n": (600 if tier == "quick" else 6000), "seed": seed + 2})
-    return out
+    from .. import fullstack
+
+    return out + fullstack.shard_descs(tier, seed)
 
 
 KNOWN = {bytes([0x10 + k, 0x22, 0x33, 0x44, 0x55, 0x66, 0x77, 0x88]): n for k, n in enumerate((0x1234, 0x0001, 0xFFF0, 0xBEEF))}
@@ -93,6 +95,12 @@ def run_shard(desc) -> Acc:
     logmode.apply(desc)
     acc = Acc()
     install_status_contract(acc)
+    if desc.get("part") == "fullstack":
+        # incoming-message callbacks through the whole stack: carried by the real AshProtocol over the faulty line
+        # (retransmitted, duplicated on the wire), interleaved with command traffic (rtmon/fullstack.py)
+        from .. import fullstack
+
+        return fullstack.run_shard_part(acc, PROPERTY, desc)
     versions = desc.get("versions") or [desc["version"]]
     rnd = random.Random(desc["seed"] * 977 + versions[0] + 31 * len(versions))
     if len(versions) == 1:
